@@ -425,6 +425,22 @@ C19_run(H) ==
                          [] ex.kind = "sack" -> s[j].p.kind = "tcp" /\ HasFlag(s[j].p, ACK) /\ ~HasFlag(s[j].p, SYN)
                          [] OTHER -> FALSE
 
+\* C17 over the wire: hop k of every reported run is router k of the scripted path (expect17.routers), emptied iff it is
+\* private and skipping is on; names only where enrichment is on and the hop survives
+C17_run(H) ==
+    LET ex == H.par.expect17 IN
+    /\ H.out.ok /\ Len(H.out.runs) = H.par.queries
+    /\ \A r \in DOMAIN H.out.runs :
+         LET hops == H.out.runs[r].hops IN
+         /\ Len(hops) = 8
+         /\ \A k \in 1..6 :
+              /\ hops[k].ttl = k
+              /\ IF ex.skip /\ ex.private[k]
+                 THEN hops[k].addr = "" /\ hops[k].rtt_us = 0 /\ ~hops[k].reach /\ Len(hops[k].names) = 0
+                 ELSE /\ hops[k].addr = ex.routers[k] /\ hops[k].rtt_us = 1000 * k /\ hops[k].reach
+                      /\ hops[k].names = (IF ex.rdns THEN <<"name-of-hop">> ELSE <<>>)
+         /\ hops[7].addr = "" /\ hops[8].addr # ""
+
 \* C20: TCP method policy (expect20 = TcpPolicy!Code for the scenario's method / capability / injected failure)
 IsSynProbe(p) == p.kind = "tcp" /\ p.flags = SYN
 IsSackProbe(p) == p.kind = "tcp" /\ HasFlag(p, ACK) /\ ~HasFlag(p, SYN)
